@@ -154,17 +154,18 @@ def c15_queries(tier):
     K = 4 if tier == 'quick' else 6
     qs = [single_query('C15'), history_query('C15', K, covers=['end', 'two-validations', 'failed-setup-after-validation'], timeout=3000),
           tld_query('C15', 2, 63), inductive_query('C15')]
-    N = 6 if tier == 'quick' else 9
-    for m, name, src, fn in MODES:
-        srcs = [src] + (['src/utf8_decode.c'] if m == 3 else [])
-        qs.append(Query('C15-codes-local-%s-N%d' % (name, N), 'a_local.c', repo=srcs,
-                        defs=D(VF_N=N, VF_CTX=1, VF_MODE=m, VF_CHECK_CODES=None), unwind=N + 4,
-                        covers=['end', 'code-too-many-dots', 'code-misplaced-dot', 'code-special', 'code-ctrl', 'code-misplaced-quote', 'code-unquoted'],
-                        bounds={'max_len': N, 'ctx_bytes': 1}, functions=[fn], timeout=3000))
-    Nd = 10 if tier == 'quick' else 13
-    qs.append(Query('C15-codes-domain-N%d' % Nd, 'a_domain.c', repo=['src/is_ascii_domain.c'], defs=D(VF_N=Nd, VF_CHECK_CODES=None),
-                    unwind=Nd + 3, covers=['end', 'code-delimiter', 'code-invalid-char', 'numeric', 'misplaced-hyphen'],
-                    bounds={'max_len': Nd}, functions=['is_ascii_domain'], timeout=3000))
+    codecov = ['code-too-many-dots', 'code-misplaced-dot', 'code-special', 'code-ctrl', 'code-misplaced-quote', 'code-unquoted']
+    for m in range(4):
+        for n in (range(0, 11) if tier == 'quick' else range(0, 19)):
+            q = local_exact('C15-codes', m, n, ctx=1, extra=['-DVF_CHECK_CODES'])
+            if n >= 4:
+                q.covers = q.covers + codecov
+            qs.append(q)
+    for n in (list(range(0, 17)) + [64, 65] if tier == 'quick' else list(range(0, 41)) + [64, 65, 66, 128, 254, 255]):
+        q = domain_exact('C15-codes', n, extra=['-DVF_CHECK_CODES'])
+        if n >= 6:
+            q.covers = q.covers + ['code-delimiter', 'code-invalid-char', 'numeric', 'misplaced-hyphen']
+        qs.append(q)
     Ne = 16 if tier == 'quick' else 40
     qs += [email_query('C15', m, Ne, covers=['end', 'accepted-hostname', 'accepted-literal']) for m in range(4)]
     return qs
@@ -173,10 +174,16 @@ def c15_queries(tier):
 LOCAL_SRCS = ['src/is_822_local.c', 'src/is_5321_local.c', 'src/is_5322_local.c', 'src/is_6531_local.c', 'src/utf8_decode.c']
 
 
-def cross_query(prefix, kind, N, covers, label, srcs=None, ctx=1, **kw):
-    return Query('%s-cross-%s-N%d' % (prefix, label, N), 'a_local_cross.c', repo=srcs or LOCAL_SRCS,
-                 defs=D(VF_N=N, VF_CROSS=kind, VF_CTX=ctx), unwind=N + ctx + 6, covers=['end'] + covers,
-                 bounds={'max_len': N, 'ctx_bytes': ctx}, functions=['is_822_local', 'is_5321_local', 'is_5322_local', 'is_6531_local'], **kw)
+def cross_query(prefix, kind, N, covers, label, srcs=None, ctx=1, exact=False, **kw):
+    return Query('%s-cross-%s-%s%d' % (prefix, label, 'len' if exact else 'N', N), 'a_local_cross.c', repo=srcs or LOCAL_SRCS,
+                 defs=D(VF_N=N, VF_CROSS=kind, VF_CTX=ctx) + (['-DVF_EXACT_N'] if exact else []), unwind=N + ctx + 6,
+                 covers=['end'] + (covers if (not exact or N >= 4) else []),
+                 bounds=({'len': N} if exact else {'max_len': N}) | {'ctx_bytes': ctx},
+                 functions=['is_822_local', 'is_5321_local', 'is_5322_local', 'is_6531_local'], weight=N, **kw)
+
+
+def cross_family(prefix, kind, covers, label, lens, srcs=None):
+    return [cross_query(prefix, kind, n, covers, label, srcs=srcs, exact=True, timeout=3000) for n in lens]
 
 
 def c03_queries(tier):
@@ -193,9 +200,9 @@ def c03_queries(tier):
     else:
         qs += [local_exact('C03', 3, n) for n in list(range(0, 19)) + [20]]
         qs.append(local_long('C03', 3, ascii_only=True))
-    M = 8 if tier == 'quick' else 11
-    qs.append(cross_query('C03', 1, M, ['both-accept-quoted', 'both-reject'], 'ascii-6531-vs-5321',
-                          srcs=['src/is_5321_local.c', 'src/is_6531_local.c', 'src/utf8_decode.c'], timeout=3000))
+    lens = list(range(0, 25)) if tier == 'quick' else list(range(0, 49)) + [63, 64, 65, 66]
+    qs += cross_family('C03', 1, ['both-accept-quoted', 'both-reject'], 'ascii-6531-vs-5321', lens,
+                       srcs=['src/is_5321_local.c', 'src/is_6531_local.c', 'src/utf8_decode.c'])
     qs.append(cross_query('C03', 4, 8, ['x-four-byte', 'x-two-byte'], 'aXb', srcs=src))
     return qs
 
@@ -416,11 +423,18 @@ def pipeline_query(prefix, N, **kw):
 
 
 def c12_queries(tier):
-    N = 8 if tier == 'quick' else 11
-    return [cross_query('C12', 2, N, ['all-accept', 'all-reject'], 'noquote-4modes', timeout=3000),
-            cross_query('C12', 3, N, ['accept-quoted', '822-only'], '5321-subset-822',
-                        srcs=['src/is_822_local.c', 'src/is_5321_local.c'], timeout=3000),
-            pipeline_query('C12', 9 if tier == 'quick' else 12, timeout=5000)]
+    lens = list(range(0, 25)) if tier == 'quick' else list(range(0, 49)) + [63, 64, 65, 66]
+    qs = cross_family('C12', 2, ['all-accept', 'all-reject'], 'noquote-4modes', lens)
+    qs += cross_family('C12', 3, ['accept-quoted', '822-only'], '5321-subset-822', lens, srcs=['src/is_822_local.c', 'src/is_5321_local.c'])
+    qs.append(pipeline_query('C12', 9 if tier == 'quick' else 12, timeout=5000))
+    if tier != 'quick':
+        q = pipeline_query('C12', 16, timeout=5000)
+        q.defs.append('-DVF_EXACT_N')
+        q.name += '-exact'
+        q.covers = ['end']
+        q.bounds = dict(q.bounds, address_len=16)
+        qs.append(q)
+    return qs
 
 
 def c10_queries(tier):
@@ -450,19 +464,26 @@ def c20_queries(tier):
 
 
 def c17_queries(tier):
-    N = 7 if tier == 'quick' else 9
     v = lambda k, fl: ('src/is_6531_local.c', ['-Dis_6531_local=is_6531_local__v%d' % k] + fl)
     V0, V1 = v(0, []), v(1, ['-DRFC6531_FOLLOW_RFC20'])
     V2, V3 = v(2, ['-DRFC6531_FOLLOW_RFC5322']), v(3, ['-DRFC6531_FOLLOW_RFC5322', '-DRFC6531_FOLLOW_RFC20'])
     dec = 'src/utf8_decode.c'
-    mk = lambda name, opt, units, covers, n=N: Query('C17-%s-N%d' % (name, n), 'a_options.c', repo=units, defs=D(VF_N=n, VF_OPT=opt),
-                                                     unwind=n + 5, covers=['end'] + covers, bounds={'max_len': n, 'ctx_bytes': 1},
-                                                     functions=['is_6531_local (variants)', 'is_ascii_domain (variants)'], timeout=3000)
-    return [mk('rfc20', 20, [V0, V1, dec], ['rfc20-rejects', 'rfc20-char-inside-quotes-kept']),
-            mk('rfc5322', 5322, [V2, dec, 'src/is_5322_local.c'], ['accept-quoted-space', 'reject']),
-            mk('rfc20+rfc5322', 2032, [V2, V3, dec], ['rfc20-rejects']),
-            mk('underscore', 95, ['src/is_ascii_domain.c', ('src/is_ascii_domain.c', ['-Dis_ascii_domain=is_ascii_domain__us', '-DLABELS_ALLOW_UNDERSCORE'])],
-               ['underscore-accepted'], n=N + 3)]
+
+    def mk(name, opt, units, covers, n):
+        return Query('C17-%s-len%d' % (name, n), 'a_options.c', repo=units, defs=D(VF_N=n, VF_OPT=opt, VF_EXACT_N=None),
+                     unwind=n + 5, covers=['end'] + (covers if n >= 5 else []), bounds={'len': n, 'ctx_bytes': 1},
+                     functions=['is_6531_local (variants)', 'is_ascii_domain (variants)'], timeout=3000, weight=n)
+    L = range(0, 11) if tier == 'quick' else range(0, 17)
+    LD = range(0, 17) if tier == 'quick' else list(range(0, 33)) + [63, 64, 65]
+    qs = []
+    for n in L:
+        qs.append(mk('rfc20', 20, [V0, V1, dec], ['rfc20-rejects', 'rfc20-char-inside-quotes-kept'], n))
+        qs.append(mk('rfc5322', 5322, [V2, dec, 'src/is_5322_local.c'], ['accept-quoted-space', 'reject'], n))
+        qs.append(mk('rfc20+rfc5322', 2032, [V2, V3, dec], ['rfc20-rejects'], n))
+    for n in LD:
+        qs.append(mk('underscore', 95, ['src/is_ascii_domain.c', ('src/is_ascii_domain.c', ['-Dis_ascii_domain=is_ascii_domain__us', '-DLABELS_ALLOW_UNDERSCORE'])],
+                     ['underscore-accepted'], n))
+    return qs
 
 
 def uninit_query(prefix, backend='idn2'):
@@ -478,14 +499,13 @@ def uninit_query(prefix, backend='idn2'):
 def c06_queries(tier):
     qs = []
     T = ['-DVF_TAIL_ALIGN']
-    N = 6 if tier == 'quick' else 8
-    for m, name, src, fn in MODES:
-        srcs = [src] + (['src/utf8_decode.c'] if m == 3 else [])
+    for m in range(4):
         for tail in (0, 1):
-            qs.append(Query('C06-local-%s-%s-N%d' % (name, 'tail' if tail else 'head', N), 'a_local.c', repo=srcs,
-                            defs=D(VF_N=N, VF_CTX=2, VF_MODE=m) + (T if tail else []), unwind=N + 4, covers=['end', 'rejected'],
-                            bounds={'max_len': N, 'ctx_bytes': 2, 'object': 'terminator is the last byte' if tail else 'first byte is the first byte'},
-                            functions=[fn], timeout=3000))
+            for n in (range(0, 10) if tier == 'quick' else list(range(0, 21)) + [64, 65, 66] if m in (1, 2) else range(0, 17)):
+                q = local_exact('C06-%s' % ('tail' if tail else 'head'), m, n, extra=T if tail else [])
+                q.covers = ['end']
+                q.bounds['object'] = 'terminator is the last byte' if tail else 'first byte is the first byte'
+                qs.append(q)
     Nd = 9 if tier == 'quick' else 12
     qs.append(Query('C06-domain-tail-N%d' % Nd, 'a_domain.c', repo=['src/is_ascii_domain.c'], defs=D(VF_N=Nd) + T, unwind=Nd + 3,
                     covers=['end'], bounds={'max_len': Nd, 'object': 'terminator is the last byte'}, functions=['is_ascii_domain'], timeout=3000))
